@@ -18,7 +18,7 @@ def mailbox_programs(tier):
 
     def add(name, cap, scripts, hp=0, tag='q', **kw):
         d = dict(name=name, cap=cap, scripts=scripts, hp=hp, tag=tag, pre=(), started_actions=(), strategy='RestartOnly',
-                 faults=0, max_clock=None, K=None, max_steps=60, started=None, owning=False, registry=False, mt=False, children=(), broker=None, entry=None, fault_targets=None, stream=False, timeout=None, cb_pending=None)
+                 faults=0, max_clock=None, K=None, max_steps=60, started=None, owning=False, registry=False, mt=False, children=(), broker=None, entry=None, fault_targets=None, stream=False, timeout=None, cb_pending=None, loop_bound=None)
         d.update(kw)
         P.append(d)
     # FIFO across paths and clients, own result, stop barrier
@@ -26,10 +26,14 @@ def mailbox_programs(tier):
     add('fifo_mixed_bounded1', 1, {'c1': [('send', A, 'a1'), ('call', A, 'a2')], 'c2': [('send', A, 'b1')]}, 1)
     add('fifo_bounded2_send_then_call', 2, {'c1': [('send', A, 'a1'), ('call', A, 'a2')]}, 1)
     add('fifo_bounded3_burst', 3, {'c1': [('send', A, 'a1'), ('send', A, 'a2'), ('send', A, 'a3'), ('call', A, 'a4')]}, 1)
+    # a long backlog drained back to back (K=0: the client runs until it is done, then the loop): thresholds inside the receive path
+    add('fifo_long_backlog', None, {'c1': [('send', A, f'a{i}') for i in range(1, 41)] + [('call', A, 'a41')]}, 0, K=0, max_steps=140, loop_bound=64)
+    add('fifo_long_backlog_bounded', 3, {'c1': [('send', A, f'a{i}') for i in range(1, 13)] + [('call', A, 'a13')]}, 0, K=0, max_steps=140, tag='t', loop_bound=64)
     add('kinds', None, {'c1': [('mk_sender', A, 's'), ('mk_caller', A, 'c'), ('sender_send', 's', 'a1'), ('caller_call', 'c', 'a2'), ('ping', A), ('call', A, 'a3')]})
     add('stop_race', None, {'c1': [('call', A, 'a1'), ('stop', A), ('call', A, 'a2')], 'c2': [('send', A, 'b1')]})
     add('stop_race_bounded', 1, {'c1': [('send', A, 'a1'), ('stop', A), ('send', A, 'a2')], 'c2': [('call', A, 'b1')]})
     add('halt_and_await', None, {'c1': [('clone', A, 'a2'), ('send', A, 'a1'), ('halt', 'a2')], 'c2': [('await', A)]})
+    add('backpressure_bounded2_burst', 2, {'c1': [('send', A, 'a1'), ('send', A, 'a2'), ('send', A, 'a3'), ('send', A, 'a4'), ('send', A, 'a5')]}, 1, K=2)
     add('backpressure_sym', 'sym', {'c1': [('send', A, 'a1')], 'c2': [('send', A, 'b1')]}, 1)
     add('backpressure_sym3', 'sym', {'c1': [('send', A, 'a1'), ('send', A, 'a2')], 'c2': [('send', A, 'b1')]}, 1, 't')
     add('backpressure_weak', 1, {'c1': [('mk_weak_sender', A, 'ws'), ('weak_send', 'ws', 'a1'), ('weak_send', 'ws', 'a2')], 'c2': [('call', A, 'b1')]}, 1, 't')
@@ -44,6 +48,7 @@ def mailbox_programs(tier):
     add('flags_unawaited', None, {'c1': [('running', A), ('stop', A), ('ping', A), ('stopped', A), ('running', A)]})
     add('flags_awaited', None, {'c1': [('clone', A, 'a2'), ('stop', A), ('await', 'a2'), ('stopped', A), ('downgrade', A, 'w'), ('weak_stopped', 'w')]})
     add('flags_during_stopped_hook', None, {'c1': [('stop', A)], 'c2': [('stopped', 'a2'), ('running', 'a2'), ('weak_stopped', 'w')]}, pre=(('clone', A, 'a2'), ('downgrade', A, 'w')), cb_pending={'stopped': 1}, K=3)
+    add('flags_weak_after_last_drop', None, {'c1': [('send', A, 'a1'), ('send', A, 'a2'), ('downgrade', A, 'w'), ('drop', A), ('weak_stopped', 'w'), ('weak_stopped', 'w')]}, 1)
     add('flags_failed_start', None, {'c1': [('clone', A, 'a2'), ('await', 'a2'), ('stopped', A), ('running', A), ('downgrade', A, 'w'), ('weak_stopped', 'w'), ('call', A, 'a1')]}, started={1: 'err'})
     add('flags_killed', None, {'c1': [('ping', A), ('clone', A, 'a2'), ('await', 'a2'), ('stopped', A), ('running', A)]}, faults=1, K=2)
     # failure containment (C06 / C02): the actor task is cancelled at any step / a handler panics
@@ -58,6 +63,7 @@ def mailbox_programs(tier):
     add('timers_delayed_exec_kill', None, {'c1': [('ping', A)]}, started_actions=(('delayed_exec', 'de', 2), ('interval', 'tick', 1)), max_clock=3, K=1, faults=1, max_steps=20)
     add('timers_handler_panics', None, {'c1': [('call', A, 'panic:1')]}, started_actions=(('delayed_exec', 'de', 2), ('interval', 'tick', 1)), max_clock=3, K=1, max_steps=20)
     add('timers_restart', None, {'c1': [('restart', A), ('ping', A)]}, started_actions=(('interval', 'tick', 2),), max_clock=4, K=2, max_steps=20)
+    add('timers_restart_non_restartable', None, {'c1': [('restart', A), ('ping', A), ('stop', A)]}, started_actions=(('interval', 'tick', 2),), max_clock=4, K=2, max_steps=22, strategy='NonRestartable')
     add('timers_restart_recreate', None, {'c1': [('restart', A), ('ping', A), ('stop', A)]}, started_actions=(('interval', 'tick', 2),), max_clock=4, K=2, max_steps=22, strategy='RecreateFromDefault', tag='t')
     add('timers_fail_restart', None, {'c1': [('restart', A), ('ping', A)]}, started_actions=(('delayed_exec', 'de', 3), ('interval', 'tick', 2)), started={2: 'err'}, max_clock=6, K=1, max_steps=22)
     # restart strategies through the builder terminals (C07): the strategy named by the builder chain must be the one that serves restarts
@@ -72,6 +78,8 @@ def mailbox_programs(tier):
     # handler timeouts on the virtual clock (C11): budget counted from the start of each handler, also after idle gaps
     add('timeout_idle_then_slow_handler', None, {'c1': [('sleep', 3), ('call', A, 'a1'), ('call', A, 'a2')]}, 1, timeout=(2, False), max_clock=6, K=2, max_steps=30)
     add('timeout_fail_on_timeout', None, {'c1': [('call', A, 'a1'), ('call', A, 'a2'), ('stop', A)], 'c2': [('await', A)]}, 1, timeout=(1, True), max_clock=4, K=2, max_steps=30)
+    add('timeout_slow_started', None, {'c1': [('call', A, 'a1'), ('stop', A)]}, 0, timeout=(1, False), cb_pending={'started': 1}, max_clock=3, K=2, max_steps=30)
+    add('timeout_slow_stopped', None, {'c1': [('call', A, 'a1'), ('stop', A)], 'c2': [('await', A)]}, 0, timeout=(1, False), cb_pending={'stopped': 1}, max_clock=3, K=2, max_steps=30)
     add('timeout_none_configured', None, {'c1': [('sleep', 2), ('call', A, 'a1')]}, 1, max_clock=4, K=1, max_steps=20, tag='t')
     # stream-attached actors (C13; also C03 lifecycle with finished): the stream is a queue fed by a producer task
     add('stream_items_then_end', None, {'prod': [('feed', 'i1'), ('feed', 'i2'), ('end_stream',)], 'c1': [('call', A, 'a1'), ('await', A)]}, stream=True, K=1, strategy='NonRestartable')
@@ -108,6 +116,7 @@ def mailbox_programs(tier):
     # service registry (C08 / C14 consequences)
     add('registry_sequential', None, {'c1': [('already_running',), ('from_registry', 'a'), ('already_running',), ('call', 'a', 'm1'), ('from_registry', 'b'), ('stop', 'a'), ('ping', 'b'), ('already_running',), ('from_registry', 'c'), ('try_from_registry',)]}, registry=True)
     add('registry_register', None, {'c1': [('spawn', 'x'), ('register', 'x', 'x2'), ('spawn', 'y'), ('register', 'y'), ('try_from_registry', 'r'), ('stop', 'r'), ('ping', 'r'), ('spawn', 'z'), ('register', 'z', 'z2'), ('already_running',), ('unregister', 'u'), ('already_running',), ('unregister',)]}, registry=True)
+    add('registry_setup_after_death', None, {'c1': [('from_registry', 'a'), ('stop', 'a'), ('ping', 'a'), ('setup',), ('already_running',), ('try_from_registry',), ('from_registry', 'b'), ('call', 'b', 'm1')]}, registry=True)
     add('registry_replace', None, {'c1': [('from_registry', 'a'), ('spawn', 'x'), ('replace', 'x', 'old'), ('from_registry', 'b'), ('ping', 'old'), ('unregister',), ('try_from_registry',)]}, registry=True)
     add('registry_concurrent_lookup', None, {'c1': [('from_registry', 'a'), ('call', 'a', 'm1')], 'c2': [('from_registry', 'b'), ('call', 'b', 'm2')]}, registry=True)
     add('registry_concurrent_lookup_mt', None, {'c1': [('from_registry', 'a'), ('call', 'a', 'm1')], 'c2': [('from_registry', 'b'), ('call', 'b', 'm2')]}, registry=True, mt=True, K=3)
@@ -153,6 +162,11 @@ def evaluate(tr, status, cap, scripts, spec=None):
         out['C02'] += oracle_resolves(tr, status, scripts)
         out['C02'] += oracle_own_result(tr, scripts)
         return out
+    from prog_entry import oracle_spurious_refresh
+    sp = oracle_spurious_refresh(tr)
+    out['C07'] += sp
+    if spec is not None and spec.get('timeout'):
+        out['C11'] += sp
     out['C01'] += oracle_fifo(tr, scripts)
     out['C02'] += oracle_own_result(tr, scripts)
     out['C02'] += oracle_resolves(tr, status, scripts)
@@ -195,7 +209,7 @@ PIDS = ('C01', 'C02', 'C03', 'C04', 'C05', 'C06', 'C07', 'C08', 'C09', 'C10', 'C
 def make_program(functions, enums, repo, spec, spawner=None):
     """the Sys and the Program object of one program spec"""
     name, cap, scripts, hp, pre = spec['name'], spec['cap'], spec['scripts'], spec['hp'], spec['pre']
-    sy = Sys(functions, enums, repo)
+    sy = Sys(functions, enums, repo, loop_bound=spec.get('loop_bound') or 12)
     if spawner:
         sy.spawner = spawner
     sy.strategy = spec['strategy']
